@@ -6,7 +6,7 @@ GROUPS = [
     dict(name='wait', tu='barrier.c', harness='h_wait', mode='D', enforce='fiber_barrier_wait', replace=PARK, functions=['fiber_barrier_wait'], timeout=300),
 ] + [
     dict(name='wait_count%d' % c, tu='barrier.c', harness='h_wait', mode='D', enforce='fiber_barrier_wait', replace=PARK,
-         functions=['fiber_barrier_wait'], defs=['-DBCOUNT=%d' % c], timeout=600, bound='count = %d (all 2^64 arrival numbers)' % c,
+         functions=['fiber_barrier_wait'], defs=['-DBCOUNT=%d' % c], timeout=600, bounded=True, bound='count = %d (all 2^64 arrival numbers)' % c,
          thorough_only=(c in COUNTS_THOROUGH)) for c in COUNTS_QUICK + COUNTS_THOROUGH
 ] + [
     dict(name='lemmas', tu='lemmas.c', kind='lemmas', harness='', no_native='pure lemma'),
